@@ -95,11 +95,57 @@ class Grid(core.Layer):
         return check_case([tuple(p) for p in case['pairs']], case['reverse'], case['split'], case['interleave'], None, case.get('empties', 0))
 
 
+@core.guarded(lambda ref, q, peaks, rev, *a: dict(reference=ref, query=q, peaks=peaks, reverse=rev))
+def check_row(ref, q, peaks, rev, acc):
+    """HitEnum of rows that the REAL aligner builds (several segments, trimmed by conflict resolution) on indel-ladder worlds"""
+    from mc.coma import make_aligner, OpticalMap
+    al = make_aligner(4, 100, 1, -25, 100, 120)
+    row = al.align(OpticalMap(1, ref[-1] + 10, ref), OpticalMap(2, q[-1] + 1, q), [Peak(p, 10.) for p in peaks], rev)
+    pairs = [(p.reference.siteId, p.query.siteId) for p in row.alignedPairs]
+    hit = row.cigarString
+    found = [(p, 'pairs=%s strand=%s hit=%r' % (pairs, '-' if rev else '+', hit), 'row', {}) for p in hitenum_problems(hit, pairs, rev)] if pairs else []
+    if acc is not None:
+        acc.evals += 1
+        acc.transitions += 2
+        acc.state((hit,))
+        if sum(1 for s_ in row.segments if not s_.empty) >= 2:
+            acc.nontriv((tuple(q), tuple(peaks), rev))
+            acc.classes['multi-segment-rows'] += 1
+        case = dict(reference=ref, query=q, peaks=peaks, reverse=rev)
+        for f in found:
+            acc.viol(f[0], case, f[1], f[2], f[3])
+        acc.sample(case)
+    return found
+
+
+class AlignerRows(core.Layer):
+    name = 'A2:aligner-rows'
+
+    def __init__(self, full):
+        from mc import lattice
+        self.cases = list(lattice.ladder_cases(full))
+        self.chunk = 60
+        self.bounds = dict(worlds='indel-ladder worlds (mc.props.c15.ladder_worlds(full=%s))' % full, peaks_per_list=[1, 3], strands=['+ q', '- mirror(q)', '- q'])
+        self.rule = '%d (world, peak list) cases x 3 strand variants: cigarString of the row the real aligner returns' % len(self.cases)
+
+    def nblocks(self):
+        return (len(self.cases) + self.chunk - 1) // self.chunk
+
+    def run_block(self, b, acc):
+        for name, ref, q, peaks in self.cases[b * self.chunk:(b + 1) * self.chunk]:
+            for rev, qq in ((False, q), (True, sorted(q[-1] - p for p in q)), (True, q)):
+                acc.seq += 1
+                check_row(ref, qq, peaks, rev, acc)
+
+    def replay(self, case):
+        return check_row(case['reference'], case['query'], case['peaks'], case['reverse'], None)
+
+
 def layers(tier, seed):
     ws = e2e.std_worlds(tier, seed, depth2=False)
     lb = e2e.WorldLayer('B:worlds', ws, e2e.judge_c03, cli_every=0,
                         bounds=dict(worlds=len(ws), modes=list(e2e.MODES)),
                         rule='every record of every file of the standard worlds x 4 modes')
     if tier == 'quick':
-        return [Grid('A:7x7', 7, 7), lb]
-    return [Grid('A:7x7', 7, 7), Grid('A:9x9', 9, 9), lb, Grid('A:10x10', 10, 10, optional=True)]
+        return [Grid('A:7x7', 7, 7), AlignerRows(False), lb]
+    return [Grid('A:7x7', 7, 7), AlignerRows(True), Grid('A:9x9', 9, 9), lb, Grid('A:10x10', 10, 10, optional=True)]
